@@ -11,6 +11,7 @@ import (
 	"bytes"
 	"encoding/json"
 	"fmt"
+	"github.com/zen-eth/shisui/history"
 	"math/rand"
 	"os"
 	"path/filepath"
@@ -625,5 +626,86 @@ func runC14Generic(o *Out, r *rand.Rand, thorough bool) {
 	}
 	for _, e := range fe {
 		gbytesCase(o, "b.ForkedSummariesWithProof", "valid", e, fswpFresh, inLim)
+	}
+}
+
+// runC14Big: the byte-list limits of the history containers that ordinary values never come near - 2^24 bytes per transaction,
+// 2^27 per receipt, 2^17 for the uncles field - each with one item AT the limit (in-limit: value -> bytes -> value must give the
+// value back) and one byte beyond (the encoder, or the decoder given the image, must refuse). Too large to spell out for the
+// Lean codec: compared Go-side like the beacon containers.
+func runC14Big(o *Out, thorough bool) {
+	type big struct {
+		name  string
+		size  int
+		inlim bool
+		enc   func(item []byte) ([]byte, error)
+		dec   func(b []byte) ([][]byte, error) // the byte-list items of the decoded value, the big one second
+	}
+	txLegacy := func(item []byte) ([]byte, error) {
+		return (&history.BlockBodyLegacy{Transactions: [][]byte{{1}, item, {2, 3}}, Uncles: []byte{0xc0}}).MarshalSSZ()
+	}
+	txLegacyDec := func(b []byte) ([][]byte, error) {
+		v := new(history.BlockBodyLegacy)
+		err := v.UnmarshalSSZ(b)
+		return v.Transactions, err
+	}
+	txShanghai := func(item []byte) ([]byte, error) {
+		return (&history.PortalBlockBodyShanghai{Transactions: [][]byte{{1}, item, {2, 3}}, Uncles: []byte{0xc0}, Withdrawals: [][]byte{}}).MarshalSSZ()
+	}
+	txShanghaiDec := func(b []byte) ([][]byte, error) {
+		v := new(history.PortalBlockBodyShanghai)
+		err := v.UnmarshalSSZ(b)
+		return v.Transactions, err
+	}
+	uncles := func(item []byte) ([]byte, error) {
+		return (&history.BlockBodyLegacy{Transactions: [][]byte{{1}}, Uncles: item}).MarshalSSZ()
+	}
+	unclesDec := func(b []byte) ([][]byte, error) {
+		v := new(history.BlockBodyLegacy)
+		err := v.UnmarshalSSZ(b)
+		return [][]byte{{1}, v.Uncles, {2, 3}}, err
+	}
+	rcpt := func(item []byte) ([]byte, error) {
+		return (&history.PortalReceipts{Receipts: [][]byte{{1}, item, {2, 3}}}).MarshalSSZ()
+	}
+	rcptDec := func(b []byte) ([][]byte, error) {
+		v := new(history.PortalReceipts)
+		err := v.UnmarshalSSZ(b)
+		return v.Receipts, err
+	}
+	cases := []big{
+		{"h.BodyLegacy.tx", 1 << 24, true, txLegacy, txLegacyDec}, {"h.BodyLegacy.tx", 1<<24 + 1, false, txLegacy, txLegacyDec},
+		{"h.BodyShanghai.tx", 1 << 24, true, txShanghai, txShanghaiDec}, {"h.BodyShanghai.tx", 1<<24 + 1, false, txShanghai, txShanghaiDec},
+		{"h.BodyLegacy.uncles", 1 << 17, true, uncles, unclesDec}, {"h.BodyLegacy.uncles", 1<<17 + 1, false, uncles, unclesDec},
+		{"h.PortalReceipts.item", 1 << 24, true, rcpt, rcptDec}, {"h.PortalReceipts.item", 1<<24 + 1, true, rcpt, rcptDec},
+		{"h.PortalReceipts.item", 20 << 20, true, rcpt, rcptDec},
+	}
+	if thorough {
+		cases = append(cases, big{"h.PortalReceipts.item", 1 << 27, true, rcpt, rcptDec}, big{"h.PortalReceipts.item", 1<<27 + 1, false, rcpt, rcptDec})
+	}
+	for _, c := range cases {
+		item := make([]byte, c.size)
+		for i := 0; i < len(item); i += 4093 {
+			item[i] = byte(i)
+		}
+		in := fmt.Sprintf("gval %s inlim=%s size=%d", c.name, b01s(c.inlim), c.size)
+		out := func() (res string) {
+			defer func() {
+				if recover() != nil {
+					res = "enc=panic"
+				}
+			}()
+			b, err := c.enc(item)
+			if err != nil {
+				return "enc=err"
+			}
+			items, err := c.dec(b)
+			if err != nil {
+				return "enc=ok dec=err"
+			}
+			eq := len(items) == 3 && bytes.Equal(items[1], item)
+			return "enc=ok dec=ok eq=" + b01s(eq) + " type=1 slot=1"
+		}()
+		o.Case(in, out)
 	}
 }
